@@ -76,7 +76,7 @@ pub open spec fn tick_modify_spec(tick: Tick, tick_index: int, cur: int, ga: u12
         Err(e) => tick_modify_err(tick, delta, is_upper) == Some(e),
     }
 }
-//@ fn manager/tick_manager.rs next_tick_modify_liquidity_update -> r
+//@ fn manager/tick_manager.rs next_tick_modify_liquidity_update -> r canary
     ensures tick_modify_spec(*tick, tick_index as int, tick_current_index as int, fee_growth_global_a, fee_growth_global_b, *reward_infos, liquidity_delta as int, is_upper_tick, r),
 //@ end
 
@@ -131,7 +131,7 @@ pub open spec fn position_modify_spec(p: Position, delta: int, fa: u128, fb: u12
         Err(e) => position_modify_err(p, delta) == Some(e),
     }
 }
-//@ fn manager/position_manager.rs next_position_modify_liquidity_update -> r
+//@ fn manager/position_manager.rs next_position_modify_liquidity_update -> r canary
     ensures position_modify_spec(*position, liquidity_delta as int, fee_growth_inside_a, fee_growth_inside_b, *reward_growths_inside, r),
 //@ rewrite_enum_mut
 //@ loop 0
@@ -163,7 +163,7 @@ pub open spec fn reward_infos_spec(w: Whirlpool, next: int, r: Result<[Whirlpool
         Ok(ri) => next >= cur && forall|k: int| 0 <= k < 3 ==> #[trigger] ri[k] == (WhirlpoolRewardInfo { growth_global_x64: next_growth(w, next, k), ..w.reward_infos[k] }),
     }
 }
-//@ fn manager/whirlpool_manager.rs next_whirlpool_reward_infos -> r tags=C11,C12,C01
+//@ fn manager/whirlpool_manager.rs next_whirlpool_reward_infos -> r tags=C11,C12,C01 canary
     ensures reward_infos_spec(*whirlpool, next_timestamp as int, r),
 //@ rewrite_iter_mut
 //@ loop 0
@@ -174,7 +174,7 @@ pub open spec fn reward_infos_spec(w: Whirlpool, next: int, r: Result<[Whirlpool
         decreases 3 - reward_info_it,
 //@ end
 
-//@ fn manager/whirlpool_manager.rs next_whirlpool_liquidity -> r tags=C05,C12,C01
+//@ fn manager/whirlpool_manager.rs next_whirlpool_liquidity -> r tags=C05,C12,C01 canary
     ensures
         ({
             let in_range = tick_lower_index <= whirlpool.tick_current_index < tick_upper_index;
